@@ -528,6 +528,14 @@ func ForwardUses(v ssa.Value, fn func(user ssa.Instruction, via ssa.Value)) {
 				if pk := CalleePkgPath(&x.Call); pk == "io" {
 					visit(x)
 				}
+				// handed to a function of the repository: its uses of the parameter are uses of the value
+				if g := x.Call.StaticCallee(); g != nil && len(g.Blocks) > 0 && IsConsulFunc(g) {
+					for i, a := range x.Call.Args {
+						if a == v && i < len(g.Params) {
+							visit(g.Params[i])
+						}
+					}
+				}
 			case *ssa.Store:
 				// value stored into a local cell: follow loads of that cell
 				if x.Val == v {
